@@ -162,7 +162,7 @@ PLAN = {
         assumptions=[],
     ),
     "C10": dict(
-        stages=[ho("C10", q=60), dict(engine="waitrace", shards=dict(quick=4, thorough=16), args=["--quick-n", "240", "--thorough-n", "4000"]), tsan("hostile"), tsan("waitrace", n=60, shards=2, extra=["--flavors", "sync"]), miri("lifecycle")],
+        stages=[ho("C10", q=60), dict(engine="waitrace", shards=dict(quick=4, thorough=16), args=["--quick-n", "480", "--thorough-n", "6000"]), tsan("hostile"), tsan("waitrace", n=60, shards=2, extra=["--flavors", "sync"]), miri("lifecycle")],
         rule=HO + " (barrier mode: disjoint keys per thread, ample capacity, each batch followed by wait() and an immediate check of the thread's own keys) || "
              "termination: waiters vs close / clear / both, readers and writers on one shard; every flavour; verdict from state (worker exit counters, thread states), never from a timeout",
         clauses=["after wait() Ok: a key written exactly once since the previous barrier holds that value and is charged / is gone and uncharged", "keys written several times: store and policy agree",
